@@ -90,7 +90,30 @@ def _setup(scratch):
 
 
 def xparse(src):
-    return _state["ex"].parse(src, ctx=set(), filename="<verif>")
+    """xonsh's context-aware entry; the set of known names is fixed per case (see `reading`)."""
+    return _state["ex"].parse(src, ctx=set(_state.get("names", ())), filename="<verif>")
+
+
+def reading(src, ctx):
+    """The names xonsh is told are known while it parses the input and the output of one case.
+    "empty": none (ctx=set()): every statement that can be read as a command is one - used for xonsh text;
+    "all"  : every identifier of the source plus the builtins - used for plain Python, which is thereby read
+             the way CPython reads it (under ctx=set() xonsh turns expression statements, `and`/`or`/`not`
+             operands and multi-line calls of Python programs into commands, often dropping part of them);
+    a list : exactly these names plus the builtins (mixtures: the identifiers of the embedded Python)."""
+    import builtins
+
+    if ctx == "empty" or ctx is None:
+        return frozenset()
+    names = set(dir(builtins))
+    if ctx == "all":
+        try:
+            names |= {t.string for t in A.tokenize(src) if t.type == _state["xtok"].NAME}
+        except Exception:  # noqa: BLE001
+            pass
+    else:
+        names |= set(ctx)
+    return frozenset(names)
 
 
 def _is_exec_list(n):
@@ -235,6 +258,10 @@ def _first_diff(a, b):
     return (a[len(b):][:1], b[len(a):][:1])
 
 
+def _jsonctx(ctx):
+    return ctx if isinstance(ctx, str) or ctx is None else sorted(ctx)
+
+
 class Result:
     def __init__(self):
         self.status = "ok"          # ok | skip:<why> | fail
@@ -251,12 +278,14 @@ def _norm(src):
     return src if (not src or src.endswith("\n")) else src + "\n"
 
 
-def check_source(src, family="?", reduce=True, want_labels=True, tolerate=True):
+def check_source(src, family="?", reduce=True, want_labels=True, tolerate=True, ctx="empty"):
     """Run the whole oracle on one source text."""
     from vlib import c17_findings
 
     st = _state
     res = Result()
+    st["names"] = reading(src, ctx)
+    st["ctx"] = ctx
     signal.alarm(CASE_SECONDS)
     try:
         try:
@@ -280,7 +309,7 @@ def check_source(src, family="?", reduce=True, want_labels=True, tolerate=True):
             return res
         except Exception as e:  # noqa: BLE001
             res.status = "fail"
-            res.failures.append(Failure("crash", {"src": src, "family": family},
+            res.failures.append(Failure("crash", {"src": src, "family": family, "ctx": _jsonctx(ctx)},
                                         "format_source raises %s: %s (the CLI only handles FormatError and OSError)" % (type(e).__name__, str(e)[:200]),
                                         bucket="crash:" + type(e).__name__))
             return res
@@ -319,7 +348,7 @@ def check_source(src, family="?", reduce=True, want_labels=True, tolerate=True):
             try:
                 o2 = st["fmt"](out)
             except Exception as e:  # noqa: BLE001
-                res.failures.append(Failure("second-pass-raises", {"src": src, "family": family},
+                res.failures.append(Failure("second-pass-raises", {"src": src, "family": family, "ctx": _jsonctx(ctx)},
                                             "format_source(out) raises %s: %s" % (type(e).__name__, str(e)[:160]),
                                             bucket="second-pass-raises:" + type(e).__name__))
                 o2 = out
@@ -331,7 +360,7 @@ def check_source(src, family="?", reduce=True, want_labels=True, tolerate=True):
                     t2 = None
                 sig, det = A.signature(out, sc2, t2)
                 fid = c17_findings.classify("not-idempotent", sig, det, st["open"])
-                res.failures.append(Failure("not-idempotent", {"src": src, "family": family},
+                res.failures.append(Failure("not-idempotent", {"src": src, "family": family, "ctx": _jsonctx(ctx)},
                                             "format_source(out) != out; edits of the second pass: %s" % (A.brief(det)[:4],),
                                             finding=fid, bucket=fid or "not-idempotent:%s" % (sig[:3],)))
         if res.failures:
@@ -395,7 +424,7 @@ def _attribute(res, ref, out, script, family, c17_findings, tolerate=True):
     open_ids = _state["open"]
     _, det = A.signature(src, script, ref.tree)
     if len(det) != len(script):
-        res.failures.append(Failure("tree-differs", {"src": src, "family": family}, "source could not be re-tokenised for attribution",
+        res.failures.append(Failure("tree-differs", {"src": src, "family": family, "ctx": _jsonctx(ctx)}, "source could not be re-tokenised for attribution",
                                     bucket="unattributable"))
         return
     units = _units(script, det)
@@ -463,7 +492,7 @@ def _emit(res, ref, kind, detail, units, text, family, c17_findings):
         res.notes.append({"why": why, "src": ref.src[:300], "edits": A.brief(det)[:3]})
         return
     fid = c17_findings.classify(kind, sig, det, _state["open"])
-    res.failures.append(Failure(kind, {"src": ref.src, "family": family},
+    res.failures.append(Failure(kind, {"src": ref.src, "family": family, "ctx": _jsonctx(_state.get("ctx"))},
                                 "%s | formatter edits that have to be taken back: %s" % (detail, json.dumps(A.brief(det)[:4])),
                                 finding=fid, bucket=fid or "%s:%s" % (kind, "+".join("%s/%s/%s" % x for x in sig[:3]))))
 
@@ -513,7 +542,7 @@ def _exempt(ref, sig, det, text, c17_findings):
         return None
     # not Python: a statement that was Python in the input and is a command in the output only because
     # no name is known (ctx=set()); with every name known both parse alike
-    if all(ctx == "python" for _, _, ctx in sig):
+    if all(ctx == "python" for _, _, ctx in sig) and not _state.get("names"):
         names = set(dir(builtins))
         try:
             names |= {t.string for t in A.real_tokens(ref.src) if t.type == _state["xtok"].NAME}
@@ -588,7 +617,7 @@ def reduce_source(src, same, seconds=8.0):
 _reduced = {}
 
 
-def settle(st, res, src, family, reduce=True):
+def settle(st, res, src, family, reduce=True, ctx="empty"):
     if os.environ.get("C17_NOREDUCE"):
         reduce = False
     """Move a Result's failures into Stats; reduce the inputs of unattributed ones (the first two of
@@ -599,7 +628,7 @@ def settle(st, res, src, family, reduce=True):
             want = f.bucket
 
             def same(text, _want=want):
-                r = check_source(text, family, reduce=False, want_labels=False)
+                r = check_source(text, family, reduce=False, want_labels=False, ctx=ctx)
                 return any(g.bucket == _want for g in r.failures)
 
             try:
@@ -607,7 +636,7 @@ def settle(st, res, src, family, reduce=True):
             except _Timeout:
                 small = src
             if small != src:
-                r2 = check_source(small, family, reduce=False, want_labels=False)
+                r2 = check_source(small, family, reduce=False, want_labels=False, ctx=ctx)
                 for g in r2.failures:
                     if g.bucket == want:
                         g.case["original"] = src[:2000]
@@ -619,8 +648,8 @@ def settle(st, res, src, family, reduce=True):
             st.notes.append("parser (not formatter) is sensitive to the width of a blank run: %s" % json.dumps(n)[:400])
 
 
-def record(st, src, family, extra_labels=(), reduce=True):
-    res = check_source(src, family)
+def record(st, src, family, extra_labels=(), reduce=True, ctx="empty"):
+    res = check_source(src, family, ctx=ctx)
     if res.status == "inconclusive":
         st.inconclusive += 1
         return res
@@ -635,7 +664,7 @@ def record(st, src, family, extra_labels=(), reduce=True):
     for fid, n in res.tolerated.items():
         st.excluded_known[fid] += n
     if res.failures or res.notes:
-        settle(st, res, src, family, reduce=reduce)
+        settle(st, res, src, family, reduce=reduce, ctx=ctx)
     return res
 
 
@@ -762,7 +791,7 @@ def worker_py(arg):
     def body(rnd):
         text = _py_case(rnd, st, budget)
         if text is not None:
-            record(st, text, "python-generated")
+            record(st, text, "python-generated", ctx="all")
 
     common.run_given(hs.randoms(use_true_random=False), body, seed, n)
     return st
@@ -784,24 +813,28 @@ def worker_xsh(arg):
     def body(rnd):
         avoid = c17_findings.avoid_switches(rnd, _state["open"])
         g = c17_xgen.XGen(rnd, avoid=avoid)
+        ctx = "empty"
         shape = rnd.randrange(10)
         if shape < 5:
             src, fam = g.one_line(), "xonsh-line"
         elif shape < 8:
             src, fam = g.program(), "xonsh-program"
         else:
-            g.py_source = lambda: _py_stmt(rnd, st)
+            pynames = set()
+            g.py_source = lambda: _py_stmt(rnd, st, pynames)
             src, fam = g.program(), "mixture"
+            ctx = sorted(pynames)
         for k, v in g.avoided.items():
             st.excluded_known[k] += v
-        record(st, src, fam, extra_labels=sorted(set(g.labels)))
+        record(st, src, fam, extra_labels=sorted(set(g.labels)), ctx=ctx)
 
     common.run_given(hs.randoms(use_true_random=False), body, seed, n)
     return st
 
 
-def _py_stmt(rnd, st):
-    """A generated Python statement (text, may span lines) for the mixtures; None when unavailable."""
+def _py_stmt(rnd, st, names):
+    """A generated Python statement (text, may span lines) for the mixtures; None when unavailable.
+    Its identifiers are added to `names` (they are known names while the mixture is parsed)."""
     import ast
 
     from vlib import pygen, stylist
@@ -816,6 +849,9 @@ def _py_stmt(rnd, st):
     except (SyntaxError, ValueError, RecursionError, MemoryError):
         return None
     text = stylist.Styler(rnd).restyle(src, max_transforms=2)
+    for node in ast.walk(tree):
+        if isinstance(node, ast.Name):
+            names.add(node.id)
     return text.rstrip("\n")
 
 
@@ -912,8 +948,15 @@ def worker_texts(arg):
     items, family, scratch = arg
     _setup(scratch)
     st = Stats()
+    import ast
+
     for name, text in items:
-        record(st, text, family, extra_labels=[name.split(":")[0]])
+        try:
+            ast.parse(text)
+            ctx = "all"           # plain Python (e.g. a Python snippet of the docs or of the parser tests)
+        except (SyntaxError, ValueError, RecursionError, MemoryError):
+            ctx = "empty"
+        record(st, text, family, extra_labels=[name.split(":")[0], "reading:" + ctx], ctx=ctx)
     return st
 
 
@@ -943,7 +986,7 @@ def worker_corpus(arg):
                 st.discards += 1
                 st.hist["skip:c01-recorded-shape"] += 1
                 continue
-            record(st, text, "stdlib-statement")
+            record(st, text, "stdlib-statement", ctx="all")
     return st
 
 
@@ -1130,7 +1173,7 @@ def worker_cli(arg):
 def _replay_case(case):
     if "good" in case:
         return check_cli(case)[0]
-    res = check_source(case["src"], case.get("family", "replay"), reduce=False, tolerate=False)
+    res = check_source(case["src"], case.get("family", "replay"), reduce=False, tolerate=False, ctx=case.get("ctx") or "empty")
     if not res.failures:
         return None
     want = case.get("finding")
